@@ -5,15 +5,30 @@
 // answer  : ok <nf> <3*nf node ids> <area volume cx cy cz minx miny minz maxx maxy maxz ax ay az>
 //              <nf face areas> <3*nf face normals>
 //           err integrity | err notmanifold | err other
+// request : eig <cxx cxy cxz cyy cyz czz>  answer : ok <3 eigenvalues> <3 x 3 column entries> (real mat33::eigen_decomposition)
 #include "proto.hpp"
 #include "cell.hpp"
 #include "custom_exception.hpp"
+#include "mat33.hpp"
 
 int main(){
     std::ios::sync_with_stdio(false);
     std::string line;
     while(std::getline(std::cin, line)){
         auto w = vproto::split(line);
+        if(w.size() == 7 && w[0] == "eig"){
+            // request : eig <cxx cxy cxz cyy cyz czz>   answer : ok <3 eigenvalues> <col 0> <col 1> <col 2>
+            // the REAL mat33::eigen_decomposition (what get_cell_longest_axis selects its column from)
+            double m[6];
+            for(int i = 0; i < 6; i++) m[i] = vproto::from_hex(w[1+i]);
+            const mat33 cm({m[0], m[1], m[2]}, {m[1], m[3], m[4]}, {m[2], m[4], m[5]});
+            const auto [ev, evec] = cm.eigen_decomposition();
+            std::ostringstream o;
+            o << "ok " << vproto::to_hex(ev.dx()) << ' ' << vproto::to_hex(ev.dy()) << ' ' << vproto::to_hex(ev.dz());
+            for(unsigned k = 0; k < 3; k++){ const vec3 col = evec.get_col(k); o << ' ' << vproto::to_hex(col.dx()) << ' ' << vproto::to_hex(col.dy()) << ' ' << vproto::to_hex(col.dz()); }
+            std::cout << o.str() << '\n';
+            continue;
+        }
         if(w.size() < 3 || w[0] != "geo"){ std::cout << "bad-op\n"; continue; }
         const size_t nn = std::stoul(w[1]), nf = std::stoul(w[2]);
         if(nn == 0 || nf == 0 || w.size() != 3 + 3*nn + 3*nf){ std::cout << "bad-op\n"; continue; }
